@@ -446,6 +446,7 @@ def run(ctx: Ctx):
     ctx.rule("R04.a2", "index dictionaries and unpacking statements pair each element with the index of that same element", floor=8)
     index_dicts(ctx, "R04.a2")
     unpack_pairs(ctx, "R04.a2")
+    check_accessors_are_sets(ctx, "R04.a2")
     ctx.rule("R04.b", "index templates: python dict lookup (KeyError), C strcmp chain (-1); every *_index passes its own family name; init templates use their own index function and keep names/values aligned", floor=30)
     index_templates(ctx, "R04.b")
     from .c03 import jax_template
@@ -455,3 +456,30 @@ def run(ctx: Ctx):
     argument_orders(ctx, "R04.c")
     ctx.rule("R04.d", "declared counts and array extents belong to the size class of their family", floor=18)
     counts(ctx, "R04.d")
+
+
+def check_accessors_are_sets(ctx: Ctx, rule: str):
+    """The ordered accessors ODE.states / parameters / intermediates / state_derivatives sort a *set* union of the
+    components' fields.  An atom declared under several component names belongs to each of those components; a
+    list union would give it one slot per component (the name -> slot map is then no bijection and the array lengths
+    no longer match the index tables).  Typed by the order-provenance engine (sa/op.py)."""
+    from .c09 import op_engine
+
+    eng = op_engine(ctx)
+    for acc in ("states", "parameters", "intermediates", "state_derivatives"):
+        f = ctx.sm.func("ode.py", f"ODE.{acc}", required=False)
+        if f is None:
+            ctx.broken(f"ODE.{acc} not found (anchor vanished)")
+        sites = [s_ for s_ in eng.sites if s_.qual == f"ODE.{acc}"]
+        sorted_sites = [s_ for s_ in sites if s_.verdict.startswith("discharged:sorted") or "sorted" in s_.verdict]
+        key = f.key("union-is-a-set")
+        if not sorted_sites:
+            ctx.undecided(rule, key, f"ODE.{acc}: the sequence that is sorted by name is not found by the order analysis", f.where())
+            continue
+        operand = sorted_sites[0].operand
+        if operand.startswith(("set[", "frozenset[")):
+            ctx.ok(rule, key, f"sorted({operand})", f.where())
+        elif operand.startswith(("seq[", "list[", "tuple[")):
+            ctx.fail(rule, key, f"ODE.{acc} sorts `{sorted_sites[0].text}`, a {operand}, not a set: an atom that belongs to several components is listed once per component and gets several slots", f.where())
+        else:
+            ctx.undecided(rule, key, f"ODE.{acc}: the type of the sorted operand ({operand}) is not known", f.where())
